@@ -3,7 +3,11 @@
    ./check C02).  Symbolic AEAD: [CEnc k n m a] decrypts only under key k with nonce n and authenticated
    data a (= the datagram's IV and unmasked header, interned: C05 proves aad = received header bytes and
    that any change of a datagram changes (aad, body)); a mutated ciphertext or tag is [CJunk].
-   Every theorem is closed by [exact] of a lemma of Proofs/HandlerB_*.v. *)
+   Every theorem is closed by [exact] of a lemma of Proofs/HandlerB_*.v.
+   [tick c h now d]: the state after the implicit tick of the step; the step (tick and handler) runs with
+   the clock of the environment set to [now] ([with_clock c now]).  Sessions expire: the lookup of the
+   session (LruTimeCache::get_mut) removes a session that has been idle for longer than
+   [cfg_session_ttl] and finds nothing, otherwise it stamps the session with [now] ([s_used]). *)
 From Coq Require Import List NArith Bool.
 From Discv5V Require Import Model.Handler Proofs.HandlerB_Base Proofs.HandlerB_Frame Proofs.HandlerB_Session
   Proofs.HandlerB_Auth Proofs.HandlerB_Step Proofs.HandlerB_Examples.
@@ -14,7 +18,11 @@ Local Open Scope N_scope.
    to exactly (src, from) - the id in the packet's header and the datagram's source address - and is
    byte for byte the plaintext m of the packet's body [CEnc k n m aad], where k is a decryption key
    (current, or the previous one kept across a re-key) of the session stored under exactly (src, from),
-   n is the packet's own nonce and aad its own authenticated data. *)
+   n is the packet's own nonce and aad its own authenticated data.
+   This is the necessary condition of the property.  The code demands more - the stored session must
+   not have expired at the time of the step, otherwise the lookup removes it and the packet is answered
+   with WhoAreYou exactly as in C02_other_address_other_session -; the repaired lemmas do not state
+   that extra condition, which only makes delivery rarer. *)
 Theorem C02_delivered_is_sent_request :
   forall c h from src n aad ct now d h' out na rid body,
   step c h (EvInbound from (PMsg src n aad ct)) now d = (h', out) ->
@@ -35,8 +43,11 @@ Theorem C02_delivered_is_sent_response :
 Proof. exact response_delivered. Qed.
 Print Assumptions C02_delivered_is_sent_response.
 
-(* every output of the step, classified (also Established(Outgoing) / UnverifiableEnr after the ENR
-   request of an outgoing session need a delivered response) *)
+(* every output of the step, classified: a datagram, RequestFailed or ExpiredSessions (the addresses of
+   sessions purged because they had expired: fail_session purges before it removes) - [quiet_out] -, or
+   WhoAreYou for exactly (src, from), or a Request / Response / Established(Outgoing) / UnverifiableEnr
+   for (src, from) that needs a delivered message - [msg_out_ok] (Established(Outgoing) /
+   UnverifiableEnr after the ENR request of an outgoing session need a delivered response) *)
 Theorem C02_message_step_outputs :
   forall c h from src n aad ct now d h' out o,
   step c h (EvInbound from (PMsg src n aad ct)) now d = (h', out) -> In o out ->
@@ -61,7 +72,8 @@ Print Assumptions C02_key_invariant_reachable.
    exactly this packet's nonce and authenticated data.  A body encrypted for another nonce or other
    authenticated data (nonce, IV or any header byte changed; body spliced into another datagram), or a
    ciphertext / tag that was flipped, truncated or extended ([CJunk]), delivers nothing: the step emits
-   WhoAreYou, RequestFailed or nothing. *)
+   WhoAreYou, RequestFailed, ExpiredSessions or nothing ([attributing]: Established, Request, Response,
+   UnverifiableEnr - the outputs that attribute something to a remote node). *)
 Theorem C02_tamper_rejected :
   forall c h from src n aad ct now d h' out o,
   step c h (EvInbound from (PMsg src n aad ct)) now d = (h', out) -> In o out -> attributing o ->
@@ -79,7 +91,9 @@ Print Assumptions C02_tamper_rejected_cases.
 
 (* other_address_other_session: the session consulted is the one stored under exactly (src, from).  A
    datagram redirected to present another source address or another node id, for which no session is
-   stored, delivers nothing - whatever sessions exist under other addresses. *)
+   stored, delivers nothing - whatever sessions exist under other addresses.  (The other case in which
+   the lookup finds nothing - a session is stored under (src, from) but has expired - is not covered by
+   a lemma of the repaired proof files; C02_delivered_is_sent_* still apply to it.) *)
 Theorem C02_other_address_other_session :
   forall c h from src n aad ct now d h' out o,
   step c h (EvInbound from (PMsg src n aad ct)) now d = (h', out) ->
@@ -88,7 +102,8 @@ Theorem C02_other_address_other_session :
 Proof. exact other_address_other_session. Qed.
 Print Assumptions C02_other_address_other_session.
 
-(* a message packet never creates or re-keys a session *)
+(* a message packet never creates or re-keys a session (it may remove the one it looks up, if that has
+   expired, and it renews the time stamp of a live one, which [SessD] ignores) *)
 Theorem C02_message_never_creates_session :
   forall c h from src n aad ct now d,
   let h' := fst (step c h (EvInbound from (PMsg src n aad ct)) now d) in
@@ -99,10 +114,17 @@ Print Assumptions C02_message_never_creates_session.
 (* ------------------------------------------------------------------------------------------ *)
 (* examples: a genuine request is delivered; the same ciphertext under another nonce or from another
    address is answered with WHOAREYOU only *)
+(* the session was last used at time 13; the access at time 14 finds it alive (ttl 1000000) and stamps it
+   with 14 - the only change of the state *)
 Example C02_example_delivery :
-  step ex_cfg h_session (EvInbound 100 pkt_request) 14 nod = (h_session, [OEvent (HRequest (7, 100) 10 0)]) /\
+  step ex_cfg h_session (EvInbound 100 pkt_request) 14 nod =
+    (set_sessions h_session
+       [((7, 100), {| s_enc := mk_key 3 1 5 7 1 true; s_dec := kd7; s_old := None; s_await := None;
+                      s_counter := 1; s_used := 14 |})],
+     [OEvent (HRequest (7, 100) 10 0)]) /\
   alist_get (7, 100) (sessions h_session) =
-    Some {| s_enc := mk_key 3 1 5 7 1 true; s_dec := kd7; s_old := None; s_await := None; s_counter := 1 |}.
+    Some {| s_enc := mk_key 3 1 5 7 1 true; s_dec := kd7; s_old := None; s_await := None; s_counter := 1;
+            s_used := 13 |}.
 Proof. split; [exact request_step | exact h_session_has_session]. Qed.
 Print Assumptions C02_example_delivery.
 
